@@ -58,6 +58,8 @@ class HallOfFame:
         """
         item = deepcopy(item)
         item_key = self._key_func(item)
+        if np.isnan(item_key):
+            return
         index = bisect_right(self._keys, item_key)
         self._keys.insert(index, item_key)
         self._items.insert(index, item)
